@@ -316,3 +316,82 @@ def data_equiv_task(d, bits):
     res['samples'].append(dict(a='%s K' % d, b='%s <literal>' % d, feasible_pairs=n))
     res['functions'] = prof.names()
     return res
+
+
+def clash_task(which, compress):
+    """a constant that shares its name with a label (separate namespaces: the constant wins):
+    the program must equal the one written with the literal value, for every value"""
+    res = TaskResult('equiv-clash:%s:%s' % (which, 'c' if compress else 'n'))
+    pl = Pipeline({'/w/pad.bin': ('bytes', b'\x00' * 4096)})
+    prof = common.FuncProfile()
+    if which == 'START':
+        # constant defined before the label of the same name
+        progA = 'START = @V@\nnop\nSTART:\nli x5, START\ndw START\nlui x6, %hi(START)\naddi x6, x6, %lo(START)'
+        progB = 'nop\nSTART:\nli x5, @V@\ndw @V@\nlui x6, %hi(@V@)\naddi x6, x6, %lo(@V@)'
+    else:
+        # label first, a far label (beyond the li single-instruction range), then the constant
+        progA = 'nop\ninclude_bytes pad.bin\nBUF:\nBUF = @V@\nli x7, BUF\npack <I BUF'
+        progB = 'nop\ninclude_bytes pad.bin\nBUF:\nli x7, @V@\npack <I @V@'
+    runs = []
+    for src in (progA, progB):
+        x = core.Explorer(max_paths=800)
+        lst = []
+
+        def fn(p, src=src):
+            V = p.int('V', lo=0, hi=(1 << 32) - 1)
+            mk = {'V': V}
+            p.notes.update(constants={}, markers=mk)
+            with prof:
+                return pl.assemble(src, {}, compress, mk)
+        for p, kind, val in x.run(fn):
+            if kind == 'limit':
+                res.inconc('clash: %s' % val)
+                continue
+            model = p.witness()
+            real = pl.real_assemble(src, {}, compress, p.notes['markers'], model)
+            if not outcomes_agree(sym_outcome_concrete(kind, val, model), real):
+                res.inconc('clash: witness replay mismatch')
+                continue
+            res['validated'] += 1
+            lst.append(dict(pc=pc_formula(p), kind=kind, val=val, notes=dict(p.notes), src=src))
+        res.absorb_stats(x.stats)
+        runs.append(lst)
+    s = z3.Solver()
+    n = 0
+    for a in runs[0]:
+        for b in runs[1]:
+            if s.check(a['pc'], b['pc']) != z3.sat:
+                continue
+            n += 1
+            if a['kind'] != b['kind']:
+                ob = z3.BoolVal(False)
+            elif a['kind'] == 'exc':
+                ob = z3.BoolVal(True)
+            else:
+                ob = seg_equal(SymBytes.of(a['val'][0]).segs, SymBytes.of(b['val'][0]).segs)
+            r = s.check(a['pc'], b['pc'], z3.Not(ob))
+            res['queries'] += 2
+            if r == z3.sat:
+                mdl = s.model()
+                ra = pl.real_assemble(progA, {}, compress, a['notes']['markers'], mdl)
+                rb = pl.real_assemble(progB, {}, compress, b['notes']['markers'], mdl)
+                vals = {k: core.concrete(v, mdl) for k, v in a['notes']['markers'].items()}
+                if ra[0] == rb[0] and (ra[0] == 'exc' or ra[1] == rb[1]):
+                    res.inconc('clash: counterexample %r did not reproduce' % vals)
+                else:
+                    path = common.write_replay('C11', 'clash_%s' % compress, dict(kind='program', property='C11', source=asmshim_sub(progA, vals), compress=compress,
+                                                                               what='constant sharing its name with a label: program differs from the literal form', a=str(ra[:2])[:200], b=str(rb[:2])[:200]))
+                    res['violations'].append(dict(harness='equiv-clash', kind='const-vs-literal', compress=compress, values=vals, a=str(ra[:2])[:160], b=str(rb[:2])[:160], replay=path))
+                    res.oblig(False)
+            else:
+                res.oblig(True if r == z3.unsat else None, 'unknown clash')
+    if n == 0:
+        res['vacuity'].append('clash: no feasible pair')
+    res['samples'].append(dict(a=progA.split('\n'), b=progB.split('\n'), compress=compress, feasible_pairs=n))
+    res['functions'] = prof.names()
+    return res
+
+
+def asmshim_sub(text, vals):
+    from symx import asmshim
+    return asmshim.MARK.sub(lambda m: str(vals.get(m.group(1), m.group(0))), text)
